@@ -178,6 +178,12 @@ def make_model(kind, st, traced=False):
     g = gamma_of_tag(st["gamma"], kind)
     if g is not None:
         kw["gamma"] = g
+    if st.get("ctor") == "setattr":
+        # the same parameters reached by assigning the public attributes of a default-constructed model
+        m = cls()
+        for k, v in kw.items():
+            setattr(m, k, v)
+        return m
     return cls(**kw)
 
 
